@@ -1451,15 +1451,20 @@ def build(tier='quick', seed=0):
         U = t.upper()
         ex_sp = [('(5)', 5), ('lim_m!()', 6), (f'consts::LIM_{U}', 9), (f'crate::consts::LIM_{U}', 9), (f'<{t}>::MAX', int_max(t)), (f'{t}::MAX as {t}', int_max(t)),
                  ('if true { 5 } else { 6 }', 5), ('match 1 { _ => 5 }', 5), (f'(5 as {t})', 5), (f'i8::MAX as {t}', 127), ('{ 5 }', 5), ('(5 + 1)', 6),
-                 ('0b1_01', 5), ('0o7', 7), (f'0x7f{t}', 127), ('1_0_0', 100)]
+                 ('0b1_01', 5), ('0o7', 7), (f'0x7f{t}', 127), ('1_0_0', 100), (f'5{t}', 5), (f'1_0_{t}', 10), ('0x0f', 15), ('0xf3', 243) if t != 'i8' else ('0x73', 115)]
+        if t != 'i8':
+            # hex digits that spell a float suffix are digits: 0x1f32 is 7986
+            ex_sp += [('0x1f32', 0x1f32), ('0x0f64', 0x0f64), ('0xf_f32', 0xff32), ('0x1_f64', 0x1f64)]
         if int_signed(t):
-            ex_sp += [('-(5)', -5), ('(-5)', -5), ('- 5', -5), ('-(-5)', 5), ('-0', 0), ('-lim_m!()', -6), (f'-consts::LIM_{U}', -9), ('!0', -1), ('-0x10', -16)]
+            ex_sp += [('-(5)', -5), ('(-5)', -5), ('- 5', -5), ('-(-5)', 5), ('- -5', 5), ('-0', 0), ('-lim_m!()', -6), (f'-consts::LIM_{U}', -9), ('!0', -1), ('-0x10', -16)]
         kinds = ['greater', 'greater_or_equal', 'less', 'less_or_equal']
         for i, (text, value) in enumerate(ex_sp):
-            kind = kinds[i % 4]
-            arb = not ((kind == 'greater' and value == int_max(t)) or (kind == 'less' and value == int_min(t)))
-            form = 'lit' if re.fullmatch(r'-?\s?[0-9_]+', text) else 'expr'
-            full.append(decl('int', t, validators=[V(kind, text, value, form)], derives=['Debug', 'TryFrom'] + (['Arbitrary'] if arb else []), tags=['spelling', 'exotic']))
+            # every spelling on every side for one type (a misread bound that stays inside the valid range on one side is
+            # outside it on the other); one kind per spelling for the other types
+            for kind in (kinds if (t == 'i32' or thorough) else [kinds[i % 4]]):
+                arb = not ((kind == 'greater' and value == int_max(t)) or (kind == 'less' and value == int_min(t)))
+                form = 'lit' if re.fullmatch(r'-?\s?[0-9_]+', text) else 'expr'
+                full.append(decl('int', t, validators=[V(kind, text, value, form)], derives=['Debug', 'TryFrom'] + (['Arbitrary'] if arb else []), tags=['spelling', 'exotic']))
     for t in FLOAT_TYPES:
         U = t.upper()
         rr = (lambda x: f32_round(x)) if t == 'f32' else (lambda x: x)
@@ -1470,11 +1475,13 @@ def build(tier='quick', seed=0):
         ex_sp = [('1.', 1.0), ('1e-3', rr(1e-3)), ('1E3', 1000.0), ('1_0.5', 10.5), (f'{t}::EPSILON', eps), (f'{t}::MIN_POSITIVE', minpos),
                  (f'core::{t}::consts::PI', pi), (f'-{t}::MAX', -fmax), ('(1.0 / 4.0)', 0.25), ('-(2.5)', -2.5), ('(-2.5)', -2.5), ('- 2.5', -2.5),
                  (f'consts::FLIM_{U}', 9.5), ('flim_m!()', 6.5), (f'-consts::FLIM_{U}', -9.5), ('if true { 1.5 } else { 2.5 }', 1.5), (f'(2 as {t})', 2.0),
-                 ('-0', -0.0 if False else 0.0), ('1e0', 1.0), (f'{t}::MIN', -fmax), ('5', 5.0), ('-5', -5.0)]
+                 ('-0', -0.0 if False else 0.0), ('1e0', 1.0), (f'{t}::MIN', -fmax), ('5', 5.0), ('-5', -5.0),
+                 (f'0.5_{t}', 0.5), (f'2.5{t}', 2.5), ('1e2', 100.0), ('-(-2.5)', 2.5), ('- -2.5', 2.5)]
         kinds = ['greater', 'greater_or_equal', 'less', 'less_or_equal']
         for i, (text, value) in enumerate(ex_sp):
             form = 'lit' if re.fullmatch(r'-?\s?[0-9_]+(\.[0-9_]*)?([eE][-+]?[0-9]+)?', text) else 'expr'
-            full.append(decl('float', t, validators=[V(kinds[i % 4], text, value, form)], derives=['Debug', 'TryFrom'], tags=['spelling', 'exotic']))
+            for kind in (kinds if (t == 'f64' or thorough) else [kinds[i % 4]]):
+                full.append(decl('float', t, validators=[V(kind, text, value, form)], derives=['Debug', 'TryFrom'], tags=['spelling', 'exotic']))
 
     # valid sets of exactly one value, spelled through expressions (the macro cannot compare those bounds with each other)
     for t in ['u8', 'i8', 'i32', 'i128']:
